@@ -4,7 +4,12 @@
 
 package obfs3
 
-import "fmt"
+import (
+	"crypto/sha256"
+	"fmt"
+
+	"gitlab.com/yawning/obfs4.git/common/uniformdh"
+)
 
 // VerifConstants returns the package constants as the compiler evaluated them.
 func VerifConstants() map[string]string {
@@ -18,5 +23,8 @@ func VerifConstants() map[string]string {
 	put("responderMagicString", responderMagicString)
 	put("maxPadding", maxPadding)
 	put("keyLen", keyLen)
+	// constants of other packages that obfs3.go uses in its own arithmetic
+	put("sha256Size", sha256.Size)        // findPeerMagic: hsBuf and the scan window
+	put("uniformdhSize", uniformdh.Size) // handshake: public key length
 	return m
 }
